@@ -45,7 +45,8 @@ HShapes == {
 \* chains: nesting along ALTERNATING item-valued terms, each node in one style (a decoder that visits a sub-document once per
 \* role it could play -- object and link, item and collection -- doubles its work per level: exponential in a 2 kB input)
 Chain(a, b, style, n) == [j |-> "chain", a |-> a, b |-> b, style |-> style, n |-> n]
-ChainStyles == {"typed", "typeless", "href", "link", "activity", "person", "collection"}
+ChainStyles == {"typed", "typeless", "href", "link", "activity", "person", "collection",
+                "idless-activity", "idless-person", "idless-collection", "idless-ucollection", "idless-page", "idless-opage"}   \* without ids, comparison has to descend
 ItemTermsOf(g) == {Props(g)[i].t : i \in {j \in 1..Len(Props(g)) : Props(g)[j].k \in {"item", "items"}}}
 AllItemTerms == UNION {ItemTermsOf(g) : g \in GoTypes}
 ChainPairTermsQuick == {"object", "url", "preview", "attachment", "tag", "items", "replies", "first"}
